@@ -419,6 +419,12 @@ func AggRules(reducers []string) []AggRule {
 		{"t(X,Y), q(Y)", true, true},
 		{"p(X,X)", false, false},
 		{"p(X,Y), p(Y,X)", false, true},
+		// the aggregated value is bound by an equality, written in either direction
+		{"p(X,W), Y = fn:plus(W, 1)", false, true},
+		{"p(X,W), fn:plus(W, 1) = Y", false, true},
+		{"p(X,W), 7 = Y", false, true},
+		{"p(X,W), W = Y", false, true},
+		{"p(X,W), q(W), Y = W", false, true},
 	}
 	var out []AggRule
 	for _, b := range bodies {
